@@ -161,3 +161,9 @@ func P2WPKHScript(k BtcKey) []byte {
 }
 
 func btcutilHash160(b []byte) []byte { return btcutil.Hash160(b) }
+
+// SHA256 is a plain SHA-256.
+func SHA256(b []byte) []byte {
+	h := sha256.Sum256(b)
+	return h[:]
+}
